@@ -475,6 +475,22 @@ class Interp:
 
     def e_match(self, n, env):
         s = self.eval(n["e"], env)
+        mg = getattr(self, "map_gets", {}).get(id(s))
+        if mg is not None and mg[0] is s and len(n["arms"]) == 2 and not any(a.get("guard") for a in n["arms"]):
+            # `match m.get(k) { Some(p) => A, None => B }` reads as `if m.contains_key(k) { let p = m[k]; A } else { B }` (like the if-let form)
+            some = [a for a in n["arms"] if a["pat"]["k"] == "tuplestruct" and a["pat"]["path"]["segs"][-1:] == ["Some"] and len(a["pat"]["elems"]) == 1]
+            none = [a for a in n["arms"] if a not in some and (a["pat"]["k"] == "wild" or (a["pat"]["k"] in ("path", "ident") and show(a["pat"], 0).strip() == "None"))]
+            if len(some) == 1 and len(none) == 1:
+                c = ("app", "contains", (("seq", mg[1]), mg[2]))
+                te = Env(env, branch=True)
+                self.bind(some[0]["pat"]["elems"][0], s[2][0], te)
+                a = self.eval(some[0]["body"], te)
+                ee = Env(env, branch=True)
+                b = self.eval(none[0]["body"], ee)
+                for nm in sorted(set(te.over) | set(ee.over)):
+                    old = env.get(nm) or ("p", nm)
+                    env.assign(nm, ite(c, te.over.get(nm, old), ee.over.get(nm, old)))
+                return ite(c, a, b)
         arms = []
         overs = []
         for a in n["arms"]:
